@@ -20,7 +20,7 @@ LEVEL_NOTE = ("Trusted: SimNet FIFO model, brute-force oracle. 'Enough messages'
 RULE = ("case = forest DCOP + algorithm + parameters + schedule; discarded unless the optimum is unique; non-trivial = "
         ">=3 variables in one component with factor-graph diameter >= 4; distinct by sha1(case)")
 ASSUMPTIONS = ["integer costs in [0,1000] so that float normalisation errors (1e-12) cannot flip a decision"]
-BUDGET = {"quick": {"workers": 8, "examples": 150, "seconds": 28},
+BUDGET = {"quick": {"workers": 8, "examples": 220, "seconds": 40},
           "thorough": {"workers": 16, "examples": 2000, "seconds": 600}}
 
 SAME_COUNT = 4
@@ -42,10 +42,94 @@ def cases(draw, algos=("maxsum", "amaxsum")):
             "seed": draw(st.integers(0, 1000))}
 
 
+def _below(parents, i, top):
+    while i in parents:
+        i = parents[i]
+        if i == top:
+            return True
+    return False
+
+
+@st.composite
+def equality_tree_cases(draw, algos=("maxsum", "amaxsum")):
+    """Trees of binary variables tied by soft equalities (penalty 1000) with unary preferences of very different
+    strengths (a strong one near a hub, weak ones at the end of chains of different lengths, an opposing one that
+    almost balances them): messages are repeated unchanged for several rounds and then move by a few per cent, which
+    is the regime the stability cut-off (default 0.1) acts in.  The optimum is decided by the sum of small far-away
+    contributions."""
+    n = draw(st.integers(4, 12))
+    names = ["t%d" % i for i in range(n)]
+    objective = draw(st.sampled_from(["min", "max"]))
+    pen = 1000
+    eq = [[0, pen], [pen, 0]] if objective == "min" else [[pen, 0], [0, pen]]
+    constraints = []
+    shape = draw(st.sampled_from(["random", "hub-chains", "hub-chains"]))
+    parents = {}
+    if shape == "random":
+        for i in range(1, n):
+            parents[i] = draw(st.integers(0, i - 1))
+    else:
+        # node 0 is the hub; chains of generated lengths hang from it
+        i = 1
+        while i < n:
+            length = min(draw(st.sampled_from([1, 2, 2, 3, 3, 4, 5])), n - i)
+            prev = 0
+            for _ in range(length):
+                parents[i] = prev
+                prev = i
+                i += 1
+    for i in range(1, n):
+        constraints.append({"name": "e%d" % i, "scope": [names[parents[i]], names[i]], "kind": "matrix",
+                            "table": eq})
+    weights = st.sampled_from([9, 9, 10, 12, 30, 100, 100, 110, 118, 127])
+    k = 0
+
+    def unary(i, w, prefers):
+        # min: the other value costs w; max: the preferred value earns w
+        t = [w, w]
+        t[prefers] = 0
+        if objective == "max":
+            t = [w - x for x in t]
+        constraints.append({"name": "u%d" % len([c for c in constraints if c["name"].startswith("u")]),
+                            "scope": [names[i]], "kind": "matrix", "table": t})
+
+    if shape == "hub-chains" and draw(st.booleans()):
+        # balanced story: the hub and the ends of its chains pull one way (strong + several weak), one neighbour of
+        # the hub pulls the other way with a strength that only the sum of ALL of them beats
+        side = draw(st.integers(0, 1))
+        strong = draw(st.sampled_from([60, 80, 100]))
+        children = [i for i in range(1, n) if parents[i] == 0]
+        opponent = children[-1] if len(children) >= 2 else None
+        ends = [i for i in range(1, n) if i not in parents.values() and i != opponent and
+                (opponent is None or not _below(parents, i, opponent))]
+        weak = {i: draw(st.integers(5, 12)) for i in ends}
+        unary(0, strong, side)
+        for i, w in weak.items():
+            unary(i, w, side)
+        if opponent is not None and weak:
+            total = strong + sum(weak.values())
+            unary(opponent, total - draw(st.integers(1, max(1, min(weak.values()) - 1))), 1 - side)
+    else:
+        for i in range(n):
+            if i == 0 or draw(st.integers(0, 2)) > 0:
+                unary(i, draw(weights), draw(st.integers(0, 1)))
+    desc = {"objective": objective, "domains": {"d0": [0, 1]},
+            "variables": [{"name": nm, "domain": "d0", "cost": None, "initial": None} for nm in names],
+            "constraints": constraints}
+    algo = draw(st.sampled_from(list(algos)))
+    params = {"damping": 0.0, "noise": 0.0, "damping_nodes": "none",
+              "start_messages": draw(st.sampled_from(["leafs", "leafs_vars", "all"])),
+              "stability": draw(st.sampled_from([0.1, 0.1, 0.1, 0.0]))}
+    return {"dcop": desc, "algo": algo, "params": params, "schedule": draw(gen.schedules(100)),
+            "seed": draw(st.integers(0, 1000))}
+
+
 def case_strategy(tier):
     import os
     only = os.environ.get("VF_ALGOS")
-    return cases(tuple(only.split(","))) if only else cases()
+    if only:
+        return cases(tuple(only.split(",")))
+    return st.one_of(cases(), equality_tree_cases())
 
 
 def factor_graph_adj(desc):
@@ -74,7 +158,8 @@ def _approx(costs, prev, stab):
 class CutoffMonitor:
     """Watches, on the wire, what the stability cut-off suppresses.  Documented behaviour: a computation may skip
     the message to a neighbour only if what it would send differs by less than `stability` (relatively, entry by
-    entry) from the last message it really SENT to that neighbour.  The message it would send is recomputed with the
+    entry) from the last message it really SENT to that neighbour, and only after SAME_COUNT consecutive messages to
+    that neighbour stayed within the threshold of their predecessor.  The message it would send is recomputed with the
     module's own public message functions from the messages the harness saw delivered - the monitor says nothing
     about the arithmetic, only about the decision to stay silent.  Used to tell the listed finding
     C05-stability-cutoff (the cut-off works as documented and freezes propagation too early) from any other way of
@@ -86,6 +171,7 @@ class CutoffMonitor:
         self.r, self.algo, self.stab, self.mode = r, algo, stab, mode
         self.recv = {n: {} for n in r.comps}
         self.last_sent = {}
+        self.streak = {}      # (src, dst) -> number of trailing sends each within the threshold of the one before
         self.deviations = []
         self.seen = 0
         self.kind, self.obj, self.targets = {}, {}, {}
@@ -104,7 +190,10 @@ class CutoffMonitor:
         trace = self.r.net.trace
         for seq, step, src, dst, msg, _ in trace[self.seen:]:
             if getattr(msg, "type", None) == "max_sum":
-                self.last_sent[(src, dst)] = dict(msg.costs)
+                costs = dict(msg.costs)
+                same = _approx(costs, self.last_sent.get((src, dst)), self.stab)
+                self.streak[(src, dst)] = self.streak.get((src, dst), 0) + 1 if same else 1
+                self.last_sent[(src, dst)] = costs
                 now[(src, dst)] = True
         self.seen = len(trace)
         return now
@@ -123,6 +212,10 @@ class CutoffMonitor:
             if not _approx(w, self.last_sent.get((n, t)), self.stab):
                 self.deviations.append("%s stayed silent towards %s %s although it would send %r and the last message "
                                        "it sent there is %r" % (n, t, where, w, self.last_sent.get((n, t))))
+            elif self.streak.get((n, t), 0) < SAME_COUNT:
+                # an unchanged message is repeated SAME_COUNT times before the computation goes silent
+                self.deviations.append("%s stayed silent towards %s %s after only %d message(s) within the threshold "
+                                       "(SAME_COUNT is %d)" % (n, t, where, self.streak.get((n, t), 0), SAME_COUNT))
 
     # synchronous Max-Sum: one evaluation of every neighbour per cycle
     def wrap_sync(self, n, c):
